@@ -467,6 +467,11 @@ impl Dedup {
         self.next - 1
     }
 
+    /// Whether no packet has been authenticated yet
+    pub(super) fn is_empty(&self) -> bool {
+        self.next == 0
+    }
+
     /// Record a newly authenticated packet number.
     ///
     /// Returns whether the packet might be a duplicate.
